@@ -7,6 +7,7 @@
 package main
 
 import (
+	"strings"
 	"encoding/hex"
 	"encoding/json"
 	"fmt"
@@ -54,6 +55,9 @@ type Obs struct {
 func backendErrBody(kind string, status int) ([]byte, string) {
 	if kind == "text" {
 		return []byte(fmt.Sprintf("upstream says %d, sorry\n", status)), "text/plain; charset=utf-8"
+	}
+	if kind == "big" { // an error page far larger than any pipe/buffer size on the way
+		return []byte(fmt.Sprintf("<html><body>%d ", status) + strings.Repeat("stack trace line\n", 16000) + "</body></html>"), "text/html"
 	}
 	b, _ := json.Marshal(map[string]any{"error": map[string]any{"message": fmt.Sprintf("backend refused with %d", status), "type": "backend_error", "code": "e" + fmt.Sprint(status)}})
 	return b, "application/json"
@@ -121,6 +125,16 @@ func run(sc *Scenario) *Obs {
 					ct = "text/event-stream"
 				}
 				body := []byte(`{"id":"chatcmpl-1","choices":[{"index":0,"message":{"role":"assist`)
+				switch sc.ErrBody { // well-formed JSON of the wrong shape, answered with 200
+				case "emptyobj":
+					body = []byte(`{}`)
+				case "nochoices":
+					body = []byte(`{"id":"chatcmpl-1","object":"chat.completion","choices":[]}`)
+				case "error200":
+					body = []byte(`{"error":{"message":"model overloaded","type":"server_error"}}`)
+				case "legacy":
+					body = []byte(`{"id":"cmpl-1","object":"text_completion","choices":[{"index":0,"text":"hello","finish_reason":"stop"}]}`)
+				}
 				smu.Lock()
 				sent, sentCT = body, ct
 				smu.Unlock()
@@ -176,7 +190,7 @@ func run(sc *Scenario) *Obs {
 	obs.Err, obs.Status, obs.Ms = r.Err, r.Status, r.Ms
 	obs.CT = anth.Header1(r, "Content-Type")
 	obs.Mode = anth.Header1(r, "X-Olla-Mode")
-	if len(r.Body) <= 1<<16 {
+	if len(r.Body) <= 1<<20 {
 		obs.BodyHex = hex.EncodeToString(r.Body)
 	}
 	time.Sleep(20 * time.Millisecond)
@@ -247,6 +261,11 @@ func main() {
 						statuses4 = []int{400, 401, 403, 404, 413, 422, 429}
 						statuses5 = []int{500, 501, 502, 503, 504}
 					}
+					for _, shape := range []string{"emptyobj", "nochoices", "error200", "legacy"} {
+						add(Scenario{Fault: "malformed", Route: route, Stream: stream, Engine: engine, N: 1, Status: 200, ErrBody: shape})
+					}
+					add(Scenario{Fault: "b5xx", Route: route, Stream: stream, Engine: engine, N: 1, Status: 500, ErrBody: "big"})
+					add(Scenario{Fault: "b4xx", Route: route, Stream: stream, Engine: engine, N: 1, Status: 429, ErrBody: "big"})
 					for _, eb := range []string{"json", "text"} {
 						for _, st := range statuses4 {
 							add(Scenario{Fault: "b4xx", Route: route, Stream: stream, Engine: engine, N: 1 + r.Intn(2), Status: st, ErrBody: eb})
